@@ -35,3 +35,131 @@ CONTRACTS = [
                     3: LoopSpec(invariant=SWEEP_INV, types={'result': ERLIST})},
              ensures=_SWEEP_POST),
 ]
+
+SP_ = SEQ + 'sequence/parsers.py::'
+
+
+def _ipv4_contracts():
+    out = []
+    import itertools
+    # every way of writing four octets with 1..3 digits each (81 layouts), digits symbolic
+    for lens in itertools.product((1, 2, 3), repeat=4):
+        name = ''.join(map(str, lens))
+        params = {}
+        octs = []
+        for o, ln in enumerate(lens):
+            vs = []
+            for d in range(ln):
+                params[f'd{o}{d}'] = Int(0, 9)
+                vs.append(f'd{o}{d}')
+            octs.append('[' + ', '.join(vs) + ']')
+        octets = '[' + ', '.join(octs) + ']'
+        params['text'] = Expr(f'ipv4_text({octets})')
+        out.append(Contract(f'c13.drop_leading_zeros.ipv4.{name}', SP_ + 'BaseIpParser.drop_leading_zeros', ['C13'], unroll=20,
+                            params=params,
+                            ensures=[('same-address-without-leading-zeros', f'result == ipv4_canon({octets})')]))
+    return out
+
+
+CONTRACTS += _ipv4_contracts()
+
+
+def _ipv6_contracts():
+    out = []
+
+    def mk(cid, lens, ell):
+        params = {}
+        groups = []
+        for g, ln in enumerate(lens):
+            vs = []
+            for d in range(ln):
+                params[f'h{g}{d}'] = Int(0, 15)
+                vs.append(f'h{g}{d}')
+            groups.append('[' + ', '.join(vs) + ']')
+        gs = '[' + ', '.join(groups) + ']'
+        params['text'] = Expr(f'ipv6_text({gs}, {ell})')
+        return Contract(cid, SP_ + 'BaseIpParser.drop_leading_zeros', ['C13'], unroll=48, params=params,
+                        bounded='IPv6 layouts: one hextet of 1-4 digits at each of the 8 positions (others one digit), and compressed '
+                                'forms with 1-3 hextets; hexadecimal digit values symbolic',
+                        ensures=[('same-address-without-leading-zeros', f'result == ipv6_canon({gs}, {ell})')])
+    for pos in range(8):
+        for ln in (2, 3, 4):
+            lens = [1] * 8
+            lens[pos] = ln
+            out.append(mk(f'c13.drop_leading_zeros.ipv6.exploded.p{pos}l{ln}', lens, -1))
+    for lens, ell in [((4,), 0), ((4,), 1), ((2, 4), 1), ((3, 2), 0), ((1, 4, 4), 2), ((4, 4, 4), 3)]:
+        out.append(mk('c13.drop_leading_zeros.ipv6.compressed.' + ''.join(map(str, lens)) + f'e{ell}', list(lens), ell))
+    return out
+
+
+CONTRACTS += _ipv6_contracts()
+
+_ERP = Rec(RT + 'extractor.py::ExtractResult', dict(start=Int(0), length=Int(1), text=Str(), type=Str(), data=Const(None), meta_data=Const(None)))
+CONTRACTS += [
+    Contract('c13.sequence_parser.parse', SP_ + 'SequenceParser.parse', ['C13', 'C01'],
+             params=dict(self=Rec(SP_ + 'SequenceParser', {}), source=_ERP),
+             ensures=[('value-equals-text-and-span-copied',
+                       'result.resolution_str == source.text and result.text == source.text and result.start == source.start and '
+                       'result.length == source.length and result.type == source.type')]),
+    Contract('c13.ip_parser.parse', SP_ + 'BaseIpParser.parse', ['C13', 'C01'], modular=['id:c13.drop_leading_zeros.any'],
+             params=dict(self=Rec(SP_ + 'BaseIpParser', {}), ext_result=_ERP),
+             ensures=[('span-copied', 'result.text == ext_result.text and result.start == ext_result.start and '
+                                      'result.length == ext_result.length and result.type == ext_result.type')]),
+    Contract('c13.drop_leading_zeros.any', SP_ + 'BaseIpParser.drop_leading_zeros', ['C13'], returns=Str(),
+             params=dict(text=Str()),
+             loops={0: LoopSpec(invariant=['0 <= i'])},
+             ensures=[('terminates-without-exception', 'True')],
+             note='safety only for arbitrary text: no exception (the functional contract is stated per layout)'),
+]
+
+
+def regular_language_obligations(tier, seed):
+    """§5.2: the language of the real Ipv4Regex / GUIDRegex constants against specification automata."""
+    import importlib.util
+    import os
+    import re
+    import time
+    import regex
+    from relang import nfa, specs as S
+    from pyvc.source import LIBS
+    res = os.path.join(LIBS, 'recognizers-sequence', 'recognizers_sequence', 'resources')
+
+    def load(fn):
+        sp = importlib.util.spec_from_file_location(fn[:-3], os.path.join(res, fn))
+        m = importlib.util.module_from_spec(sp)
+        sp.loader.exec_module(m)
+        return m
+    out = []
+    flags = re.I | re.S       # as compiled by RegExpUtility.get_safe_reg_exp
+
+    def ob(name, pattern, spec, ascii_only, what):
+        t0 = time.time()
+        try:
+            eq, wit, side, n = nfa.compare(pattern, flags, spec, ascii_only=ascii_only)
+        except nfa.NotRegular as e:
+            return dict(name=name, kind='closed', verdict='unknown', detail=f'pattern outside the regular subset: {e}')
+        d = dict(name=name, kind='closed', backend='relang-product', seconds=round(time.time() - t0, 2),
+                 detail=f'{what}: {n} product states explored', assumptions=['regular-language checker relang/nfa.py (sre parse tree -> NFA, exact character-class alphabet)'])
+        if eq:
+            d['verdict'] = 'unsat'
+        else:
+            real = bool(regex.fullmatch(pattern, wit, flags=regex.I | regex.S))
+            d.update(verdict='sat', witness=wit, accepted_by=side, replayed=(real == (side == 'pattern')),
+                     detail=f'{what}: witness {wit!r} is accepted by the {side} only; real regex engine fullmatch = {real}')
+        return d
+    ip = load('base_ip.py').BaseIp
+    out.append(ob('relang/Ipv4Regex-language-ascii', ip.Ipv4Regex, S.Ipv4Spec(), True,
+                  'over ASCII, fullmatch(Ipv4Regex) accepts exactly the dotted quads of numbers 0..255 with at most three digits each'))
+    out.append(ob('relang/Ipv4Regex-language-all-code-points', ip.Ipv4Regex, S.Ipv4Spec(), False,
+                  'over all code points, fullmatch(Ipv4Regex) accepts exactly the ASCII dotted quads'))
+    g = load('base_GUID.py').BaseGUID
+    gspec = S.UnionSpec(S.GuidElementSpec(), S.GuidElementSpec('{', '}'), S.GuidElementSpec('urn:uuid:'),
+                        S.GuidElementSpec('%7b', '%7d'), S.GuidElementSpec("x'", "'"))
+    out.append(ob('relang/GUIDRegex-language', g.GUIDRegex, gspec, False,
+                  'fullmatch(GUIDRegex) accepts exactly 8-4-4-4-12 or 32 hexadecimal digits (any letter case), plain or wrapped in '
+                  '{...}, urn:uuid:..., %7b...%7d, x\'...\''))
+    return out
+
+
+regular_language_obligations.props = ['C13']
+CLOSED = [regular_language_obligations]
